@@ -42,6 +42,30 @@ const (
 	catalogShapeMapBody                       // one or more hydraide:"FieldName" body fields
 )
 
+// hydraideTagHead returns the name part of a `hydraide` tag: everything before
+// the first comma. Reserved names (key, value, expireAt, ...) are recognised by
+// comparing this head, never by substring, so a body field tagged "keywords" or
+// "values" is not mistaken for the key or the value slot.
+func hydraideTagHead(raw string) string {
+	head, _, _ := strings.Cut(raw, ",")
+	return head
+}
+
+// hydraideTagHasOption reports whether the comma separated options that follow
+// the tag head contain opt (for example "omitempty").
+func hydraideTagHasOption(raw, opt string) bool {
+	_, rest, found := strings.Cut(raw, ",")
+	if !found {
+		return false
+	}
+	for _, p := range strings.Split(rest, ",") {
+		if strings.TrimSpace(p) == opt {
+			return true
+		}
+	}
+	return false
+}
+
 // inspectCatalogModel walks a struct type once and returns its shape +
 // the list of map-body fields (only populated for catalogShapeMapBody).
 //
@@ -61,7 +85,7 @@ func inspectCatalogModel(t reflect.Type) (catalogShape, []mapBodyField, error) {
 			continue
 		}
 		parts := strings.Split(raw, ",")
-		head := parts[0]
+		head := hydraideTagHead(raw)
 		if head == "" {
 			continue
 		}
